@@ -1,2 +1,7 @@
 import QlibcModel.Props.C17
-#print axioms Qlibc.Props.C17.b64MapTbl_length
+#print axioms Qlibc.Props.C17.urlDecode_safe
+#print axioms Qlibc.Props.C17.b64Decode_safe
+#print axioms Qlibc.Props.C17.hexDecode_safe
+#print axioms Qlibc.Props.C17.parseQueries_safe
+#print axioms Qlibc.Props.C17.makeword_safe
+#print axioms Qlibc.Props.C17.table_lengths
